@@ -3,8 +3,8 @@
 # never return bytes. Exit 1 only if bytes come back.
 import sys, warnings, io, glob
 warnings.filterwarnings('ignore')
-sys.path.insert(0, sys.argv[1] + '/src'); sys.path.insert(0, '/verif/harness')
-import stub_modules as stubmods; stubmods.install()
+sys.path.insert(0, sys.argv[1] + '/src'); sys.path.insert(0, '/root/scratch/probe')
+import stubmods; stubmods.install()
 import pydicom
 from highdicom.io import ImageFileReader
 
